@@ -169,6 +169,28 @@ def _with_simple_expr(g):
 
 
 # ------------------------------------------------------------------------------------------------ glue
+def _through_wrapper(P, k, b, call_bb):
+    """the Result of the call at call_bb is handed whole to a helper of the repository whose value is `result.map_err(..)` of that very
+    parameter (the Ok payload passes through untouched): -> block of the helper's call, or None"""
+    dest = b["blocks"][call_bb]["term"]["dest"]["local"]
+    ch = MU.Chaser(b)
+    for bb2, t2, _, tg2 in P.call_sites(k):
+        for ai, a in enumerate(t2["args"]):
+            r = ch.root(a, through_calls=False)
+            if r[0] != dest or r[1]:
+                continue
+            for g_ in tg2:
+                gb = P.body.get(g_)
+                if gb is None or "{closure" in g_:
+                    continue
+                chg = MU.Chaser(gb)
+                if any(bl["term"]["k"] == "call" and MU.callee_names(bl["term"])[1] == "std::result::Result::<T, E>::map_err" and
+                       bl["term"]["dest"]["local"] == 0 and not bl["term"]["dest"]["proj"] and
+                       chg.root(bl["term"]["args"][0], through_calls=False)[0] == ai + 1 for bl in gb["blocks"]):
+                    return bb2
+    return None
+
+
 def _ok_payload_locals(b, call_bb):
     """locals that hold the Ok payload of the Result returned by the call at call_bb (match arm binding / `?` value)"""
     r = MU.result_edges(b, call_bb)
@@ -257,6 +279,10 @@ def glue(P, rep):
     frag = None
     for bb in sites:
         payload, r = _ok_payload_locals(b, bb)
+        if not payload:
+            bbw = _through_wrapper(P, k2, b, bb)
+            if bbw is not None:
+                payload, r = _ok_payload_locals(b, bbw)
         if not payload:
             ok1 = False
             why.append("the Ok value of process() is not bound")
